@@ -340,7 +340,7 @@ def constructors_unit(plan):
         sig, body = extract_fn(ctext[m.start():vlib.match_brace(ctext, m.end() - 1)], "solve")
         bb = body.strip()[1:-1]
         bb, k1 = re.subn(r"matrix_to_values\(\s*&self\.arg\s*\)\s*\.unwrap_or_default\(\)", "matrix_values_or_empty(arg)", bb)
-        bb, k2 = re.subn(r"(\w+)\s*\.into_iter\(\)\s*\.map\(\s*\|value\|\s*\{\s*value\s*\.convert_to\(\s*&self\.target_kind\s*\)\s*\.unwrap_or_else\(\s*\|\|\s*panic!\([^;]*?\)\s*\)\s*\}\s*\)\s*\.collect::<Vec<_>>\(\)",
+        bb, k2 = re.subn(r"(\w+)\s*\.into_iter\(\)\s*\.map\(\s*\|value\|\s*\{\s*value\s*\.convert_to\(\s*&self\.target_kind\s*\)\s*\.unwrap_or_else\(\s*\|\|\s*panic!\([^;]*?\)\s*\)\s*\}\s*\)\s*\.collect(?:::<Vec<_>>)?\(\)",
                          r"convert_each(\1, target_kind)?", bb)
         bb, k2b = re.subn(FILTER_MAP_RX % r"&self\.target_kind", r"convert_present(\1, target_kind)", bb)       # std filter_map: the elements that have a conversion, in order
         k2 += k2b
@@ -384,7 +384,7 @@ def constructors_unit(plan):
         plan.dropped.append(constructors_unit.__doc__.strip())
 
 
-FILTER_MAP_RX = r"(\w+)\s*\.into_iter\(\)\s*\.filter_map\(\s*\|value\|\s*value\.convert_to\(\s*%s\s*\)\s*\)\s*\.collect::<Vec<_>>\(\)"
+FILTER_MAP_RX = r"(\w+)\s*\.into_iter\(\)\s*\.filter_map\(\s*\|value\|\s*value\.convert_to\(\s*%s\s*\)\s*\)\s*\.collect(?:::<Vec<_>>)?\(\)"
 CONV_SET_MODEL = """
 // std's filter_map over the same closure: only the elements that HAVE a conversion, in order (not what the code uses; named so that such a rewrite is judged, not lost)
 pub open spec fn conv_some(s: Seq<Value>, k: TargetKind) -> Seq<Value> decreases s.len() {
